@@ -4,22 +4,14 @@ from specrt import *   # noqa
 
 
 def erase_method_form(n: Py, names: L) -> Py:
-    """seq.Op(args...) with Op in `names`  ->  Op(seq, args...), at every depth; everything else
-    rebuilt homomorphically."""
+    """seq.Op(args..., kw=...) with Op in `names`  ->  Op(seq, args..., kw=...), at every depth
+    (keyword arguments are arguments: kept); everything else rebuilt homomorphically."""
     if isinstance(n, ast.Call) and isinstance(n.func, ast.Attribute) and n.func.attr in names:
         return ast.Call(ast.Name(n.func.attr),
                         cons(erase_method_form(n.func.value, names),
-                             map_list(erase_method_form, n.args, names)), [])
+                             map_list(erase_method_form, n.args, names)),
+                        map_list(erase_method_form, n.keywords, names))
     return map_children(erase_method_form, n, names)
-
-
-def opcall_kwfree(n: Py, names: L) -> B:
-    """Domain restriction (DESIGN C17): method-form operator calls carry no keyword arguments (the
-    query language has none)."""
-    if isinstance(n, ast.Call) and isinstance(n.func, ast.Attribute) and n.func.attr in names:
-        if len(n.keywords) != 0:
-            return False
-    return all_children(opcall_kwfree, n, names)
 
 
 def no_method_op(n: Py, names: L) -> B:
